@@ -355,8 +355,9 @@ def write_cfg(maxmsg: int, compress: bool, decode: bool, pend: int, expmax: int,
 
 
 def model_runs(ctx: Ctx) -> None:
-    quick = [(4, True, True, 0, 1, "full"), (0, False, True, 0, 1, "full"), (4, True, False, 3, 2, "span")]
-    thorough = quick + [(4, True, True, 3, 3, "full"), (0, True, True, 3, 3, "full"), (4, False, True, 3, 3, "mid")]
+    quick = [(4, True, True, 0, 1, "full"), (0, False, True, 0, 1, "full"), (4, True, False, 3, 2, "span"),
+             (4, True, True, 3, 3, "full")]
+    thorough = quick + [(0, True, True, 3, 3, "full"), (4, False, True, 3, 3, "mid"), (4, True, False, 3, 3, "full")]
     for (mx, comp, dec, pend, em, alpha) in ctx.pick(quick, thorough):
         cfg = write_cfg(mx, comp, dec, pend, em, alpha)
         res = run_tlc("WsFramesMC", cfg, workers=16, timeout=ctx.pick(400, 1500), deadlock=False)
